@@ -177,10 +177,10 @@ def handle (toks : List String) : String :=
     match parseNat? L, parseNat? m, parseNat? nEst, parseNatList? draws with
     | some L, some m, some nEst, some draws =>
       match fitIntervals L m nEst draws with
-      | .error e => s!"nint={nIntervals L} minint={minIntervalFit L m} fit={showErr e}"
+      | .error e => s!"nint={nIntervals L} minint={minIntervalAttr L m} fit={showErr e}"
       | .ok (all, hs) =>
         let shown := if all.isEmpty then "~" else "|".intercalate (all.map showIvs)
-        s!"nint={nIntervals L} minint={minIntervalFit L m} highs={showNatList hs} ivs={shown}"
+        s!"nint={nIntervals L} minint={minIntervalAttr L m} highs={showNatList hs} ivs={shown}"
     | _, _, _, _ => "bad-op"
   | _ => "bad-op"
 
